@@ -23,6 +23,7 @@
 (*   D4  a LIMIT clause that renders nothing leaves a separating blank      *)
 (*   D5  an Order column call after an Order expression drops the           *)
 (*       expression; Distinct without columns renders "*"                   *)
+(*   D6  Count discards an expression Select                                *)
 (***************************************************************************)
 EXTENDS Integers, Sequences, TLC
 
@@ -36,15 +37,15 @@ Calls == {"sel_name", "sel_field", "sel_list", "sel_raw", "sel_expr", "distinct"
           "where_age", "where_id", "order_name", "order_agedesc", "order_col_id_desc", "order_reorder_tag", "order_empty",
           "order_expr", "limit_m1", "limit_0", "limit_2", "limit_5", "offset_m1", "offset_0", "offset_3",
           "group_name", "group_age", "having_cnt", "having_age", "lock_update", "lock_share"}
-Fins == {"find", "take", "first", "last"}
+Fins == {"find", "take", "first", "last", "count"}
 
 NoExpr == [sql |-> "", vars |-> <<>>, dist |-> FALSE]
 Empty == [cols |-> <<>>, hasSx |-> FALSE, sexpr |-> NoExpr, dist |-> FALSE, omits |-> <<>>, where |-> <<>>, group |-> <<>>,
           having |-> <<>>, ocols |-> <<>>, hasOx |-> FALSE, oexpr |-> NoExpr, hasOrd |-> FALSE,
           hasLim |-> FALSE, limSet |-> FALSE, lim |-> 0, off |-> 0, lock |-> Nil]
 
-Col(n) == [t |-> Q(n)]
-Raw(n) == [t |-> n]
+Col(n) == [t |-> Q(n), simple |-> TRUE]        \* a single column / field name
+Raw(n) == [t |-> n, simple |-> FALSE]
 SelCols(s, cs) == [s EXCEPT !.cols = cs, !.hasSx = FALSE, !.sexpr = NoExpr]
 AddWhere(s, sql, v) == [s EXCEPT !.where = Append(@, [sql |-> sql, vars |-> <<v>>])]
 AddHaving(s, sql, v) == [s EXCEPT !.having = Append(@, [sql |-> sql, vars |-> <<v>>])]
@@ -72,7 +73,7 @@ Apply(s, c) ==
     [] c = "where_id"  -> AddWhere(s, "id <> ?", 9)
     [] c = "order_name"        -> AddOrder(s, Raw("name"))
     [] c = "order_agedesc"     -> AddOrder(s, Raw("age desc"))
-    [] c = "order_col_id_desc" -> AddOrder(s, [t |-> Q("id") \o " DESC"])
+    [] c = "order_col_id_desc" -> AddOrder(s, [t |-> Q("id") \o " DESC", simple |-> FALSE])
     [] c = "order_reorder_tag" -> [s EXCEPT !.ocols = <<Col("tag")>>, !.hasOx = FALSE, !.oexpr = NoExpr, !.hasOrd = TRUE]
     [] c = "order_empty"       -> s
     [] c = "order_expr"        -> [s EXCEPT !.hasOx = TRUE, !.oexpr = [sql |-> "id = ? DESC", vars |-> <<4>>, dist |-> FALSE], !.hasOrd = TRUE]
@@ -94,8 +95,17 @@ Apply(s, c) ==
 Finish(s, fin) ==
   CASE fin = "find"  -> s
     [] fin = "take"  -> SetLimit(s, 1)
-    [] fin = "first" -> AddOrder(SetLimit(s, 1), [t |-> TQ("id")])
-    [] fin = "last"  -> AddOrder(SetLimit(s, 1), [t |-> TQ("id") \o " DESC"])
+    [] fin = "first" -> AddOrder(SetLimit(s, 1), [t |-> TQ("id"), simple |-> FALSE])
+    [] fin = "last"  -> AddOrder(SetLimit(s, 1), [t |-> TQ("id") \o " DESC", simple |-> FALSE])
+    \* Count replaces the SELECT list -- also an expression Select (D6) -- by count(*), or by COUNT(col) /
+    \* COUNT(DISTINCT(col)) when exactly one plain column is selected, and drops ORDER BY unless the
+    \* statement groups
+    [] fin = "count" ->
+         LET one == Len(s.cols) = 1 /\ s.cols[1].simple
+             txt == IF ~one THEN "count(*)"
+                    ELSE IF s.dist THEN "COUNT(DISTINCT(" \o s.cols[1].t \o "))" ELSE "COUNT(" \o s.cols[1].t \o ")"
+         IN [s EXCEPT !.hasSx = TRUE, !.sexpr = [sql |-> txt, vars |-> <<>>, dist |-> FALSE],
+                      !.hasOrd = IF Len(s.group) > 0 \/ Len(s.having) > 0 THEN s.hasOrd ELSE FALSE]
 
 RECURSIVE Fold(_, _)
 Fold(s, cs) == IF Len(cs) = 0 THEN s ELSE Fold(Apply(s, Head(cs)), Tail(cs))
